@@ -147,14 +147,14 @@ CLAIMS = {
     "C12": dict(
         text="FileRoundTrip.tla defines the expected restored tree (same paths, types, bytes, link targets; modes masked by "
              "the umask unless PreservePermissions; SkipUnpack keeps the gzip blob under the name) over the case space "
-             "shape x {TarReproducible, PreservePermissions, SkipUnpack, ForceCAS} x intermediate store, which TLC emits; the "
+             "shape x {TarReproducible, PreservePermissions, SkipUnpack, ForceCAS, IgnoreNoName} x intermediate store (memory, OCI layout, file, remote), which TLC emits; the "
              "driver materialises each shape (nesting, empty directories and files, 120-character and non-ASCII names, "
              "relative and dangling symlinks, modes 0444/0600/0755/0666/0700/0775, a file larger than the copy buffer) "
              "twice with different timestamps, runs Add -> PackManifest -> Copy -> Copy on real stores and RoundJudge.tla "
              "compares the restored tree with the abstract source tree, the descriptor with the stored bytes, the two "
              "descriptors of reproducible tars, duplicate names, and requires a tampered uncompressed digest to fail.",
         note="tar/PAX/gzip byte-level encoding is exercised, not modelled; the specification sees the abstract tree. umask "
-             "022 is set by the driver; the check runs as root. IgnoreNoName and the remote intermediate are not covered yet. "
+             "022 is set by the driver; the check runs as root. The remote intermediate is a Repository over the in-process reference registry with every capability on; with IgnoreNoName the pipeline ends with CopyGraph (no manifest is kept to tag). "
              "Symbolic links carry their own mtimes (lutimes) in the reproducibility comparison; same-bytes files behind a legitimately absent (non-distributable) named layer.",
         ref="3 C12", technique="TLA+ expectation function; TLC-emitted cases replayed through the real pipeline, outcome judged by TLC"),
     "C13": dict(
